@@ -129,6 +129,17 @@ def run(ctx):
     ctx.rule("R09.9", "new subsystem: the manager of a function whose variable died is stopped, or - when not started yet - never started", floor=4)
     func_var_death_rule(ctx, program, "R09.9")
 
+    ctx.rule("R09.10", "new subsystem @service: names registered by start() are exactly the names stop() removes; a refused name never releases another context's registration", floor=8)
+    from .c12 import service_forms
+    service_forms(ctx, program, "R09.10")
+
+    ctx.rule("R09.11", "State.notify_del releases the queue's subscription of every watched entity for every ordering of the names", floor=20)
+    from .c15 import state_unsubscribe_table
+    state_unsubscribe_table(ctx, program, "R09.11")
+
+    ctx.rule("R09.12", "GlobalContext.stop leaves nothing registered or queued and switches auto-start off, whatever was registered before", floor=4)
+    context_stop_table(ctx, program, "R09.12")
+
     ctx.rule("R09.2", "cleanup loops that release per element never return or break on a missing element", floor=3)
     loops = 0
     for u in program.functions():
@@ -271,6 +282,47 @@ def load_file_rule(ctx, program, rid):
               key="failed load stops context", node=f, rel="global_ctx.py")
     ctx.check(bad_reg is None, rid, uid, "a context is registered exactly when its source evaluated without exception",
               msg=f"load_file: {bad_reg}", key="register only after success", node=f, rel="global_ctx.py")
+
+
+def context_stop_table(ctx, program, rid):
+    from ..absint import Const, ListV, ObjV
+    uid = "global_ctx.py::GlobalContext.stop"
+    for n_trig in (0, 2):
+        for n_dm in (0, 1):
+            for delayed in (False, True):
+                trigs = tuple(ObjV(f"t{i}", "EvalFunc") for i in range(n_trig))
+                dms = tuple(ObjV(f"m{i}", "FunctionDecoratorManager") for i in range(n_dm))
+                stopped = []
+
+                def tstop(i, n, a, k, c, o, stopped=stopped):
+                    stopped.append(c.env.get("func").oid)
+                    return [(c, Const(None))]
+
+                def dstop(i, n, a, k, c, o, stopped=stopped):
+                    stopped.append(c.env.get("dm").oid)
+                    return [(c, Const(None))]
+
+                pol = FlowPolicy(program, may_raise_all=False, cancel=False, inline={"GlobalContext.set_auto_start", "self.set_auto_start"},
+                                 summaries={"func.trigger_stop": tstop, "dm.stop": dstop, "Function.hass.async_create_task": lambda i, n, a, k, c, o: [(c, Const(None))]})
+                pol.loop_unroll = 4
+                heap = {"self.triggers": ListV(trigs, "set"), "self.triggers_delay_start": ListV(trigs if delayed else (), "set"), "self.dms": ListV(dms, "set"),
+                        "self.dms_delay_start": ListV(dms if delayed else (), "set"), "self.auto_start": Const(True)}
+                out = run_flow(program, uid, pol, args={"self": ObjV("self", "GlobalContext")}, heap=heap)
+                bad = None
+                ex = exits(out)
+                for k, c, d in ex:
+                    h = c.heap
+                    left = {x: h.get(f"self.{x}") for x in ("triggers", "triggers_delay_start", "dms", "dms_delay_start")}
+                    if k != "return":
+                        bad = f"leaves with {d}"
+                    elif any(not isinstance(v, ListV) or v.items for v in left.values()):
+                        bad = f"still registered/queued afterwards: { {x: repr(v) for x, v in left.items() if not isinstance(v, ListV) or v.items} }"
+                    elif h.get("self.auto_start") != Const(False):
+                        bad = ("auto-start stays on: a trigger function defined later by a still running task of the removed file is started at once and nothing ever stops it")
+                    elif sorted(stopped) != sorted([t.oid for t in trigs] + [m.oid for m in dms]):
+                        bad = f"stopped {sorted(stopped)}, registered {[t.oid for t in trigs] + [m.oid for m in dms]}"
+                label = f"{n_trig} legacy trigger function(s), {n_dm} decorator manager(s), {'queued for a delayed start' if delayed else 'running'}"
+                ctx.check(bool(ex) and bad is None, rid, uid, label, msg=f"GlobalContext.stop with {label}: {bad or 'no exit'}", key=f"context stop {label}", node=program.func(uid), rel="global_ctx.py")
 
 
 def func_var_death_rule(ctx, program, rid):
